@@ -315,6 +315,30 @@ func c14HTTP(c *Ctx, ix *PkgIndex, m otlpMod) {
 			okR, _ = g.DominatedByNodes(do[0], toSet(rs))
 		}
 		c.Check(okR, "R4", sp+"|UploadX$closure|request.reset(ctx) precedes client.Do", at(ix.M, cl.Pos()), "the body reader is rewound for every attempt", "a retried attempt re-sends a consumed (empty) body")
+		// … and binds the request to the closure's own context (the one the retry loop and the stop signal cancel)
+		if len(rs) == 1 && len(cl.Lit.Type.Params.List) == 1 && len(cl.Lit.Type.Params.List[0].Names) == 1 {
+			p := info.Defs[cl.Lit.Type.Params.List[0].Names[0]]
+			argOK := false
+			inspectNoLit(rs[0].N, func(n ast.Node) bool {
+				if call, ok := n.(*ast.CallExpr); ok && callToDecl(info, reset)(call) && len(call.Args) == 1 {
+					argOK = sameVar(info, call.Args[0], p)
+				}
+				return true
+			})
+			c.Check(argOK, "R4", sp+"|UploadX$closure|request.reset receives the attempt's own context", at(ix.M, rs[0].N.Pos()), "the in-flight request is cancelled with the attempt",
+				"the HTTP request is bound to another context than the one handed to the attempt: shutdown or deadline no longer interrupts an in-flight request")
+			// and every ctx.Done()/Err() inside the closure is the parameter's
+			okCtx := true
+			inspectNoLit(cl.Body(), func(n ast.Node) bool {
+				if call, ok := n.(*ast.CallExpr); ok && (isCallTo(info, call, "(context.Context).Done") || isCallTo(info, call, "(context.Context).Err")) {
+					if recv, _ := methodCall(info, call); recv != nil && !sameVar(info, recv, p) {
+						okCtx = false
+					}
+				}
+				return true
+			})
+			c.Check(okCtx, "R4", sp+"|UploadX$closure|cancellation tests use the attempt's own context", at(ix.M, cl.Pos()), "ctx parameter", "the closure tests another context than the one it was given")
+		}
 		// partial success: handled, never returned
 		found, handled, returned := partialSuccessArm(info, cl)
 		ps := found
@@ -697,6 +721,39 @@ func c14Retry(c *Ctx, rx *PkgIndex, m otlpMod) {
 			})
 		}
 		c.Check(good && addsThrottle, "R3", sp+"|Config.RequestFunc$enabled|both max-elapsed-time tests (elapsed, elapsed+throttle) precede the wait and end the loop", at(rx.M, enabled.Pos()), "the deadline is honoured before sleeping", "the retry loop can wait or retry past MaxElapsedTime")
+	}
+	// the time budget is per request: the start time (and every variable the deadline tests read) is set inside the per-request closure
+	{
+		var bad []string
+		n := 0
+		inspectNoLit(enabled.Body(), func(nd ast.Node) bool {
+			call, ok := nd.(*ast.CallExpr)
+			if !ok || !isCallTo(info, call, "time.Since") || len(call.Args) != 1 {
+				return true
+			}
+			n++
+			v, isV := objOf(info, call.Args[0]).(*types.Var)
+			if !isV || v.Pos() < enabled.Body().Pos() || v.Pos() > enabled.Body().End() {
+				bad = append(bad, exprStr(call.Args[0]))
+				return true
+			}
+			// defined from time.Now() inside the closure, outside the retry loop
+			okDef := false
+			inspectNoLit(enabled.Body(), func(m ast.Node) bool {
+				if as, ok := m.(*ast.AssignStmt); ok && as.Tok == token.DEFINE && len(as.Lhs) == 1 && len(as.Rhs) == 1 && objOf(info, as.Lhs[0]) == types.Object(v) {
+					if c2, ok := unparen(as.Rhs[0]).(*ast.CallExpr); ok && isCallTo(info, c2, "time.Now") && !inLoop(enabled, as) {
+						okDef = true
+					}
+				}
+				return true
+			})
+			if !okDef {
+				bad = append(bad, exprStr(call.Args[0])+" (not := time.Now() at the start of the request)")
+			}
+			return true
+		})
+		c.Check(n >= 1 && len(bad) == 0, "R3", sp+"|Config.RequestFunc$enabled|elapsed time measured from the start of this request", at(rx.M, enabled.Pos()), "startTime := time.Now() inside the per-request closure",
+			"the retry time budget is measured from "+strings.Join(bad, ", ")+", not from the start of the request: once the exporter is older than MaxElapsedTime every retryable failure gives up after one attempt (or the budget restarts on every attempt)")
 	}
 	// wait argument is max(throttle, backoff)
 	{
